@@ -10,6 +10,7 @@ import (
 	"os/exec"
 	"path/filepath"
 	"strings"
+	"time"
 
 	"github.com/taskctl/taskctl/internal/vh/common"
 )
@@ -468,6 +469,67 @@ pipelines:
 	return ""
 }
 
+// ---- C19 (formats): the output format is presentation only and never crashes ----
+
+func formatsCase(c Case, dir string) string {
+	// c.Via = outcome, c.Stage = as 2-stage pipeline
+	trace := filepath.Join(dir, "trace")
+	task := map[string]string{
+		"success":     "    command: ['echo one >> %[1]s', 'echo out']\n",
+		"fail":        "    command: ['echo one >> %[1]s', 'echo out; exit 3']\n",
+		"skipped":     "    condition: 'exit 1'\n    command: 'echo one >> %[1]s'\n",
+		"before-fail": "    before: 'exit 2'\n    command: 'echo one >> %[1]s'\n",
+		"up-fail":     "    context: broken\n    command: 'echo one >> %[1]s'\n",
+		"allowed":     "    allow_failure: true\n    command: ['echo one >> %[1]s; exit 4', 'echo two >> %[1]s']\n",
+	}[c.Via]
+	y := "contexts:\n  broken:\n    up: 'exit 1'\ntasks:\n  first:\n    command: 'echo first >> %[1]s'\n  t1:\n" + task
+	y += "pipelines:\n  p1:\n    - task: first\n    - task: t1\n      depends_on: [first]\n"
+	os.WriteFile(filepath.Join(dir, "tasks.yaml"), []byte(fmt.Sprintf(y, trace)), 0o644)
+	target := "t1"
+	if c.Stage {
+		target = "p1"
+	}
+	type obs struct {
+		code  int
+		trace string
+	}
+	var results []obs
+	for _, format := range []string{"raw", "prefixed", "cockpit"} {
+		os.Remove(trace)
+		done := make(chan runResult, 1)
+		go func() {
+			r, err := runTaskctl(dir, dir, nil, "--output", format, target)
+			if err != nil {
+				r.code = -99
+				r.out = err.Error()
+			}
+			done <- r
+		}()
+		var r runResult
+		select {
+		case r = <-done:
+		case <-time.After(60 * time.Second):
+			return fmt.Sprintf("KIND:format-hang-%s:taskctl --output %s %s did not finish within 60s", format, format, target)
+		}
+		if strings.Contains(r.out, "panic:") || strings.Contains(r.out, "fatal error:") || strings.Contains(r.out, "goroutine ") || r.code < 0 || r.code > 1 {
+			return fmt.Sprintf("KIND:format-crash-%s:taskctl --output %s %s crashed (status %d): %s", format, format, target, r.code, firstLines(r.out))
+		}
+		b, _ := os.ReadFile(trace)
+		results = append(results, obs{r.code, strings.Join(strings.Fields(string(b)), " ")})
+	}
+	for i := 1; i < len(results); i++ {
+		if results[i] != results[0] {
+			return fmt.Sprintf("KIND:format-changes-result:result under raw %+v, under %s %+v", results[0], []string{"raw", "prefixed", "cockpit"}[i], results[i])
+		}
+	}
+	// and the result itself: exit status 0 iff the outcome is not a failure
+	wantFail := c.Via == "fail" || c.Via == "before-fail" || c.Via == "up-fail"
+	if (results[0].code != 0) != wantFail {
+		return fmt.Sprintf("KIND:format-wrong-status:outcome %s gave exit status %d", c.Via, results[0].code)
+	}
+	return ""
+}
+
 func runOne(c Case, root string) string {
 	dir, err := os.MkdirTemp(root, "case")
 	if err != nil {
@@ -489,6 +551,8 @@ func runOne(c Case, root string) string {
 		return undefCase(c, dir)
 	case "hooks":
 		return hooksCase(c, dir)
+	case "formats":
+		return formatsCase(c, dir)
 	}
 	return "infra: unknown kind"
 }
@@ -653,6 +717,14 @@ func main() {
 			return false
 		}
 		rec(nil)
+	case "formats":
+		for _, outcome := range []string{"success", "fail", "skipped", "before-fail", "up-fail", "allowed"} {
+			for _, stage := range []bool{false, true} {
+				if do(Case{Kind: "formats", Via: outcome, Stage: stage, Args: []string{outcome}}) {
+					goto done
+				}
+			}
+		}
 	case "hooks": // every sequence of <=2 (thorough 3) targets over {ok, bad, plain, pok, pbad}, via root action and `run`
 		alphabet := []string{"ok", "bad", "plain", "pok", "pbad"}
 		maxLen := 2
